@@ -358,6 +358,39 @@ func genTable(r *rng.R) *tableSpec {
 		}
 		t.groups = append(t.groups, g)
 	}
+	// adjacent multi-rowspan runs: 2-4 adjacent cells with rowspan >= 2 (after 0-1 plain cells), followed by
+	// shorter rows whose cells must skip ALL the slots still held by the run
+	if r.P(1, 3) {
+		for _, g := range t.groups {
+			if len(g.rows) < 2 || !r.P(2, 3) {
+				continue
+			}
+			off, run := r.Intn(2), r.Range(2, 4)
+			first := g.rows[r.Intn(len(g.rows)-1)]
+			for len(first.cells) < off+run+r.Intn(2) {
+				first.cells = append(first.cells, genCell(r, t, fmt.Sprintf("x%d_%d", rowNo, len(first.cells)), ncols, len(g.rows)))
+			}
+			rowNo++
+			for i, c := range first.cells {
+				c.colspan = ""
+				if i >= off && i < off+run {
+					c.rowspan = strconv.Itoa(r.Range(2, 4))
+				} else if r.P(1, 2) {
+					c.rowspan = ""
+				}
+			}
+			seen := false
+			for _, row := range g.rows {
+				if row == first {
+					seen = true
+					continue
+				}
+				if seen && len(row.cells) > 2 && r.P(2, 3) {
+					row.cells = row.cells[:r.Range(1, 2)]
+				}
+			}
+		}
+	}
 	return t
 }
 
